@@ -14,6 +14,7 @@
 EXTENDS Omml
 
 CONSTANTS Profile,          \* "quick" | "thorough"
+          Part,             \* "wide" | "deep" | "pairs" | "all": which part of the universe
           MaxStack, MaxLen  \* SpecBuild bounds
 
 VARIABLES tree, stk
@@ -97,10 +98,10 @@ Pairs == {<<a, b>> : a \in PairSet, b \in PairSet}
 Triples == IF Thorough THEN {<<a, b, c>> : a \in Rads, b \in Rads \cup {R(<<"a", ")">>)}, c \in Rads} ELSE {}
 
 Universe ==
-    {<<n>> \o c : n \in Wide, c \in Closing}
-    \cup {<<n>> \o c : n \in Deep, c \in Closing}
-    \cup {p \o c : p \in Pairs \cup Triples, c \in Closing}
-    \cup {<<R(t)>> : t \in TextsWide} \cup {<<>>}
+    (IF Part \in {"wide", "all"} THEN {<<n>> \o c : n \in Wide, c \in Closing}
+                                       \cup {<<R(t)>> : t \in TextsWide} \cup {<<>>} ELSE {})
+    \cup (IF Part \in {"deep", "all"} THEN {<<n>> \o c : n \in Deep, c \in Closing} ELSE {})
+    \cup (IF Part \in {"pairs", "all"} THEN {p \o c : p \in Pairs \cup Triples, c \in Closing} ELSE {})
 
 InitEnum == tree \in Universe /\ stk = <<>>
 SpecEnum == InitEnum /\ [][UNCHANGED vars]_vars
@@ -119,7 +120,6 @@ Below(k) == SubSeq(stk, 1, Len(stk) - k)
 Fold(k, n) == LET base == Below(k + 1) IN
               Append(base, Append(stk[Len(stk) - k], n))
 SlotOf(c, mode) == IF mode = 0 THEN <<>> ELSE IF mode = 1 THEN <<c>> ELSE <<c, <<R(<<"b">>)>> >>
-Modes == {0, 1, 1, 1, 2}
 
 InitBuild == tree = <<>> /\ stk = << <<>> >>
 AddRun == /\ Len(Top2) < MaxLen
